@@ -100,6 +100,14 @@ impl<'a> Gen<'a> {
         if depth == 0 || self.o.atoms_only || self.w.chance(3, 5) {
             return self.var_or_atom(scope);
         }
+        if self.w.chance(1, 10) {
+            // a `#[compound]` term (Pair / Duo): unified, walked and reified by the code the
+            // attribute macro generates, not by the list code
+            let kind = self.w.below(2) as u8;
+            let a = self.term(scope, depth - 1);
+            let b = self.term(scope, depth - 1);
+            return T::cmp(kind, a, b);
+        }
         let n = self.w.below(4);
         let items: Vec<T> = (0..n).map(|_| self.term(scope, depth - 1)).collect();
         if n > 0 && self.w.chance(1, 5) {
